@@ -251,6 +251,12 @@ func tryNormalForms(id, tier, repo string, rep *Report, known *KnownFile) (*Repo
 	for n := range rep.c.roleFns {
 		anch[n] = true
 	}
+	// the constructors of errors are what the rules recognise a reported failure by
+	for _, fn := range rep.c.allFns {
+		if fn.Parent() == nil && fn.Signature.Recv() == nil && rep.c.alwaysStarError(fn) {
+			anch[fn.Name()] = true
+		}
+	}
 	// A violated obligation whose construct is a function's own body ("defaultValueText (..): nil only for a nil
 	// argument") is a complaint about that body: inlining the function would take the body out of the rule's
 	// sight, not decide it. Rules whose verdict depends on where the code sits (who may add a path segment,
@@ -404,6 +410,7 @@ func tryNormalForms(id, tier, repo string, rep *Report, known *KnownFile) (*Repo
 		name string
 		pick func(string) bool
 		wide bool
+		form func() (*nfResult, error) // a normal form other than inlining
 	}
 	callers := map[string]map[string]bool{}
 	for from, cs := range callees {
@@ -419,8 +426,16 @@ func tryNormalForms(id, tier, repo string, rep *Report, known *KnownFile) (*Repo
 		b := bareOf(name)
 		return v1(name) || (v2(name) && len(callers[b]) <= 3)
 	}
-	variants := []variant{{"helpers the open obligations name", v1, false},
-		{"helpers with at most three calling functions among those called by the functions the open obligations name", v2narrow, false}}
+	var variants []variant
+	// a role nobody plays: the statement that plays it inside another function is taken out into a function of its own
+	for _, t := range outlineTargets {
+		role := t.role
+		if strings.Contains(openText, "anchor: "+role) {
+			variants = append(variants, variant{name: "the statement in the role of the " + role + " taken out into a function of its own", form: func() (*nfResult, error) { return outlineForm(repo, role) }})
+		}
+	}
+	variants = append(variants, variant{name: "helpers the open obligations name", pick: v1},
+		variant{name: "helpers with at most three calling functions among those called by the functions the open obligations name", pick: v2narrow})
 	// one helper at a time, among those the examined functions call
 	var singles []string
 	for _, fn := range c.allFns {
@@ -438,14 +453,20 @@ func tryNormalForms(id, tier, repo string, rep *Report, known *KnownFile) (*Repo
 	}
 	for _, b := range singles {
 		b := b
-		variants = append(variants, variant{"the helper " + b + " alone", func(name string) bool { return bareOf(name) == b && !anch[b] }, true})
+		variants = append(variants, variant{name: "the helper " + b + " alone", pick: func(name string) bool { return bareOf(name) == b && !anch[b] }, wide: true})
 	}
-	variants = append(variants, variant{"helpers called by any function the rules examined", v3, true})
+	variants = append(variants, variant{name: "helpers called by any function the rules examined", pick: v3, wide: true})
 	for _, v := range variants {
 		if v.wide && !onlyLostGrip {
 			continue // the wider selections are for rules that found nothing to examine
 		}
-		nf, err := normalForm(repo, v.pick)
+		var nf *nfResult
+		var err error
+		if v.form != nil {
+			nf, err = v.form()
+		} else {
+			nf, err = normalForm(repo, v.pick)
+		}
 		att := map[string]interface{}{"selection": v.name}
 		if err != nil {
 			att["error"] = err.Error()
@@ -498,6 +519,9 @@ func tryNormalForms(id, tier, repo string, rep *Report, known *KnownFile) (*Repo
 				if _, ok := have[o.Rule+"|"+o.Key]; ok {
 					continue
 				}
+				if o.NegOnly {
+					continue // an occurrence of something forbidden: on this text it does not occur
+				}
 				namesInlined := false
 				// only where the construct is described through the helper (a value "coerceArgIn()#0", an error
 				// source "Root.resolveElem#1") or the rule judges code by where it sits
@@ -527,8 +551,16 @@ func tryNormalForms(id, tier, repo string, rep *Report, known *KnownFile) (*Repo
 				was = append(was, o.Rule+" | "+o.Key)
 			}
 			rep2.overlay = nf.overlay
-			rep2.Notes = append(rep2.Notes, fmt.Sprintf("decided on a normal form of the source (%s): %s inlined at their call sites; on the text as written %d obligations were not discharged: %s", v.name, strings.Join(nf.inlined, ", "), len(open), strings.Join(was, "; ")))
-			fmt.Printf("NORMAL-FORM: property=%s decided with %s inlined (%d obligations open on the text as written)\n", id, strings.Join(nf.inlined, ", "), len(open))
+			how := "inlined at their call sites"
+			if v.form != nil {
+				how = "- no other change"
+			}
+			rep2.Notes = append(rep2.Notes, fmt.Sprintf("decided on a normal form of the source (%s): %s %s; on the text as written %d obligations were not discharged: %s", v.name, strings.Join(nf.inlined, ", "), how, len(open), strings.Join(was, "; ")))
+			if v.form != nil {
+				fmt.Printf("NORMAL-FORM: property=%s decided with %s (%d obligations open on the text as written)\n", id, strings.Join(nf.inlined, ", "), len(open))
+			} else {
+				fmt.Printf("NORMAL-FORM: property=%s decided with %s inlined (%d obligations open on the text as written)\n", id, strings.Join(nf.inlined, ", "), len(open))
+			}
 			return rep2, map[string]interface{}{"selection": v.name, "inlined": nf.inlined, "left_alone": nf.kept, "open_on_the_text_as_written": was}
 		}
 	}
